@@ -8,6 +8,7 @@ PROP = 'C20'
 BIN = 'c20'
 DENSE = {'quick': {8: 16, 16: 16, 32: 16, 64: 16}, 'thorough': {8: 64, 16: 64, 32: 64, 64: 64}}   # bounded by the build time of this driver
 TASK_REQS = 400
+TIMEOUT = 2700   # watchdog per task (word-space probes on the 8192-bit types are the slowest requests)
 METHODS = ['gen_range', 'gen_range_inclusive', 'uniform', 'uniform_inclusive', 'sample_single', 'sample_single_inclusive']
 RULE = ('a scripted RNG replays chosen word streams and records what is consumed. (i) every draw of gen_range / gen_range_inclusive / '
         'Uniform / sample_single(_inclusive) must lie in the requested range: bounds of size 1, 2, 2^k, 2^k+-1, the full range, signed '
@@ -159,8 +160,9 @@ def requests(cfg, rng, n, tier, part, nparts, st):
         yield 'range', (low, high, words_for(cfg, rng, low, high))
     if cfg.bits >= 24:
         # word-space probes (release build): small ranges on wide types, every method; the size is bounded by the cost of 2*s*BITS draws
-        smax = max(2, min(40, 30000 // cfg.bits))
-        for j in range(6 if tier == 'quick' else 24):
+        # a draw costs about N^2 digit products (one widening multiplication): keep a probe below ~2*10^10 of them
+        smax = max(1, min(40, 30000 // cfg.bits, int(2e10 // (2 * cfg.bits * cfg.n * cfg.n))))
+        for j in range(6 if (tier == 'quick' or cfg.bits * cfg.n * cfg.n > 2e8) else 24):
             size = rng.choice([x for x in (1, 2, 3, 5, 6, 7, 10, 12, 16, 17, 31, 33, 40) if x <= smax])
             lr = rng.random()
             if lr < 0.3:
